@@ -189,6 +189,9 @@ def main() -> int:
                          "token": rec["tok"], "record": rec, "observed": meta, "sites": sites, "occurrences": len(items)},
                    what + (" [%d records, sites %s]" % (len(items), sites[:4]) if len(items) > 1 else ""))
 
+    # ---- setter level (spec/PropRefusal.tla): refused property assignments lose nothing that was written before
+    prop_cov = property_setter_stage(rep, work, rp, do_selftest)
+
     # ---- reported, not judged
     e_by_type: dict = {}
     for k, judged in erep.items():
@@ -232,6 +235,7 @@ def main() -> int:
         "clause_E_per_type": e_by_type, "unvalidated_string_types_A": a_unval, "read_alternatives_reported_only": reported_reads, "write_tokens_reported_only": reported_writes,
         "rejected_groups": len(groups), "constants": {"DELTA": consts[0], "ULP": consts[1], "NRAND": consts[2]},
         "tlc_wall_s": round(mc.wall, 1),
+        "property_setter_stage": prop_cov,
     }
     return finish(rep, rp, "exploration", cov, [
         "TLC 1.8 + CommunityModules Json/IOUtils", "lxml XMLSchema over the XSD files in /repo/spec is the judge of lexical validity "
@@ -240,6 +244,57 @@ def main() -> int:
         "python-unit scales of the seven converting types are a hand table (extract/simpletypes.SCALE); D would fail everywhere if one were wrong",
         "D compares modulo 360 degrees for the two angle types (the type itself identifies those values) and case-insensitively for hexBinary",
         "judged through the element property (the setter of the statement); the direct to_xml outcome is recorded only"])
+
+
+def property_setter_stage(rep, work, rp, do_selftest) -> dict:
+    """Every catalogued property of C09's machine x every out-of-domain / wrong-type value class (alone, and after an accepted
+    assignment to the same property): the refused call must not lose an attribute value or text the part held (PropRefusal.tla)."""
+    from mbt.checks import c09
+    from mbt.drive import props as PD
+    if rp and rp.get("module") != "PropRefusal":
+        return {"skipped": "replay of another module"}
+    pcat = PD.prepare(E.tier(), E.seed())
+    with open(os.path.join(work, "cat.json"), "w") as f:
+        json.dump(pcat, f)
+    knames = [k["kind"] for k in pcat]
+    if rp:
+        rjobs = [tuple(rp["job"])]
+    else:
+        rjobs = []
+        allk = list(range(1, len(pcat) + 1))
+        for name, depth in (("psweep", 1), ("ppairs", 2)):
+            sts, acts, _r = c09.explore(work, name, depth, 1 if depth == 1 else 2, allk)
+            for i, s_ in enumerate(sts):
+                sc = [a for a in c09.scenario(acts, s_) if a["op"] != "SaveReopen"]
+                if sc[-1]["op"] == "SetNone" or (depth == 2 and not (sc[0]["op"] == "Set" and sc[0]["p"] == sc[1]["p"])):
+                    continue
+                kn = knames[s_["k"] - 1]
+                K = PD.RT["kinds"][kn]
+                rjobs.append(("%s:%d" % (name, i), kn, K["deck"], K["path"], sc))
+    traces = E.pmap(PD.run_monitored, rjobs, procs=16, chunk=16)
+    kept = [(j, t) for j, t in zip(rjobs, traces) if t is not None]
+    recs = [{"id": j[0], "out": t["steps"][0]["out"], "lost": t["lost"]} for j, t in kept]
+    if do_selftest:
+        k0 = next(i for i, r in enumerate(recs) if r["out"] in ("ValueError", "TypeError") and not r["lost"])
+        bad0, _, _ = E.validate("PropRefusal", {"recs": [dict(recs[k0], id="selftest", lost=["val@x"]), recs[k0]]}, work=work, name="prop_selftest")
+        ok = [b["id"] for b in bad0] == ["selftest"]
+        print("SELFTEST %s: a refused property assignment recorded as having lost an attribute -> %s" % ("ok" if ok else "FAILED", bad0))
+        if not ok:
+            raise E.MachineryError("PropRefusal selftest failed")
+    bad, summ, _ = E.validate("PropRefusal", {"recs": recs}, work=work, name="prop_obs", heap="4g")
+    byid = {j[0]: (j, t) for j, t in kept}
+    for v in bad:
+        j, t = byid[v["id"]]
+        last = j[4][-1]
+        pr = PD.RT["kinds"][j[1]]["props"][last["p"] - 1]["p"]
+        vcls = last["v"]["cls"] + ":" + str(last["v"]["anchor"])
+        rep.reject("RefusedKeepsValues@%s.%s[%s]" % (j[1], pr, vcls),
+                   {"module": "PropRefusal", "job": list(j), "lost": t["lost"], "out": t["steps"][0]["out"]},
+                   "%s.%s %s: refused with %s, the part lost %s" % (j[1], pr, [(a["op"], a["v"]["cls"] + ":" + str(a["v"]["anchor"])) for a in j[4]],
+                                                                   t["steps"][0]["out"], t["lost"][:4]))
+    if not rp and summ["refused"] < 500:
+        raise E.MachineryError("vacuous: only %d refused property assignments observed" % summ["refused"])
+    return {"candidates": len(rjobs), "judged": len(recs), "refused": summ["refused"], "rejected": summ["rejected"]}
 
 
 def selftest(work, pairs, W, WM, R, types_file, consts):
